@@ -20,7 +20,7 @@ META = dict(
           "through _tskit.LightweightTableCollection, with optional keys absent or None, and objects in the middle of "
           "a seekable multi-object file are loaded from a positioned handle with and without skip options. A case is "
           "distinct by the canonical bit-exact row content of its objects and non-trivial when some table has a row."),
-    REQUIRED=["same:stream-load", "stream-offset", "eof", "same:path-load", "file-structure", "skip-load",
+    REQUIRED=["stale-index-roundtrip", "same:stream-load", "stream-offset", "eof", "same:path-load", "file-structure", "skip-load",
               "same:copy", "same:pickle", "same:fromdict", "same:dump_tables", "equals", "assert_equals",
               "table-equals", "fromdict-optional-key", "load-at-offset", "same:chain", "chain-equals",
               "same:lwt-roundtrip", "table-copy", "table-pickle", "ts-surface", "file-optional-key",
